@@ -162,11 +162,11 @@ static StringDictionary *get_object(Ctx &c, int k, const Params &p, const strs &
   if (src.compare(0, 4, "gen:") == 0) return x_load(c, k, img, true, atoi(src.c_str() + 4));
   if (src.compare(0, 4, "own:") == 0) return x_load(c, k, img, false, atoi(src.c_str() + 4));
   if (src == "gen2") {
-    StringDictionary *d1 = (k == K_BLOCKS) ? x_load(c, k, img, false, 1) : x_load(c, k, img, true, 1);
+    StringDictionary *d1 = x_load(c, k, img, true, 1);
     if (!d1) return 0;
     str img2; bool ok = x_save(c, d1, img2); x_delete(c, d1);
     if (!ok) return 0;
-    return (k == K_BLOCKS) ? x_load(c, k, img2, false, 1) : x_load(c, k, img2, true, 1);
+    return x_load(c, k, img2, true, 1);
   }
   return 0;
 }
@@ -400,7 +400,12 @@ static void run_subcell(Ctx &c, const Cell &cell, const SubCell &sc) {
     x_delete(c, d);
     std::vector<str> ref; str key = fmt("%d|", k) + p0.s() + "|" + src + (idfree ? "|idfree" : "");
     if (p.s() == p0.s()) { CA.obs[key] = got; }
-    else if (ref_obs(key, k, p0, cell, src, idfree, ref)) compare_obs(c, ref, got, "param", fmt("parameters %s vs %s", p0.s().c_str(), p.s().c_str()));
+    else if (ref_obs(key, k, p0, cell, src, idfree, ref)) {
+      // an FM-index built without BWT sampling documents that it has no substring search: compare the rest
+      auto nosub = [](const std::vector<str> &v) { std::vector<str> o; for (auto &x : v) { str t = obs_tag(x); if (t != "LS" && t != "ES") o.push_back(x); } return o; };
+      bool drop = (k == K_FMINDEX) && ((p.c == 0) != (p0.c == 0));
+      compare_obs(c, drop ? nosub(ref) : ref, drop ? nosub(got) : got, "param", fmt("parameters %s vs %s", p0.s().c_str(), p.s().c_str()));
+    }
     else emit("K reference_unobservable");
     // all order-preserving kinds agree with one another (reference: PFC bucket 2), on the shared operations
     if (k_ordered(k) && k != K_PFC && p.s() == p0.s()) {
@@ -533,7 +538,6 @@ static std::vector<SubCell> subcells_for(const str &prop, const Scope &sc, const
         if (prop == "C06" && s == "concat" && !(p.s() == dom[0].s())) continue;
         if (prop == "C12" && s != "fresh" && s != "gen:1" && s != "own:1") continue;
         if (prop == "C09" && s != "fresh") continue;
-        if (k == K_BLOCKS && s.compare(0, 3, "gen") == 0 && prop != "C06") continue;  // generic loader has no Blocks case: C06's business
         v.push_back({k, p, s});
       }
     }
